@@ -2,8 +2,9 @@
 from contracts import candgraph
 
 LEVEL = "other"
-TRUSTED = ["node_frame_dict maps each frame with detections to the list of exactly its nodes, each once (what nodes_from_segmentation / "
-           "nodes_from_points_list / _compute_node_frame_dict build - checked by the bounded stand-in, not proved)",
+TRUSTED = ["a node_frame_dict passed in by the caller maps each frame with detections to the list of exactly its nodes, each once (what "
+           "nodes_from_segmentation / nodes_from_points_list build; PROVED of nodes_from_points_list(scale=None) and of _compute_node_frame_dict, which add_cand_edges calls "
+           "when no mapping is given; for nodes_from_segmentation checked by the bounded stand-in only)",
            "scipy KDTree: A.query_ball_tree(B, r)[i] lists exactly the indices j with distance(A[i], B[j]) <= r, each once; sorted(keys) is strictly "
            "increasing; networkx add_edge adds exactly that edge (models in contracts/candgraph.py)",
            "reference semantics of the bounded stand-in written from the property statement (native/pure_bounded.py)"]
@@ -12,13 +13,16 @@ EXPLANATION = ("PROVED (SMT, unbounded - every number of frames, detections per 
                "Three nested loop invariants: frames loop (edges = links leaving processed frames; the carried-over frame / node list / tree are None "
                "together or belong to one frame that is a key), nodes-of-frame loop (links of the first i nodes), matches loop (first j matches of the node); "
                "each initial and preserved by the real loop bodies, including the `continue` for frames without a following frame and the carried-over "
-               "tree being reused only when it is the current frame's. "
+               "tree being reused only when it is the current frame's. Also proved: the real _compute_node_frame_dict builds exactly the frame -> nodes "
+               "mapping that add_cand_edges relies on (keys = frames with a non-empty list; every node in the list of its frame exactly once); the real "
+               "nodes_from_points_list (scale=None) creates exactly one node per point with the point's index as id, its time and position, no edges, "
+               "and returns that same kind of mapping - so for point lists the frame mapping is proved, not assumed. "
                "BOUNDED STAND-IN (node construction, IoU, and end-to-end cross-check): real compute_graph_from_points_list on every placement of <= 4 "
                "points into frames 0..3 (all gap patterns, pair-gap-pair) with positions from {0,1,3} and two distances, and compute_graph_from_seg (+IoU) "
                "on random small label videos with empty frames, against a brute-force reference.")
 ASSUMPTIONS = ["distances are abstracted by an uninterpreted predicate close(a, b, r); floats are not reasoned about",
                "bounded stand-in: exhaustive/sampled over the stated finite space, not a proof"]
-NOT_UNDER_CONTRACT = ["nodes_from_segmentation", "nodes_from_points_list", "_compute_node_frame_dict (assumed at its call site)", "add_iou", "_compute_ious",
+NOT_UNDER_CONTRACT = ["nodes_from_segmentation", "nodes_from_points_list with a scale (numpy broadcasting; scale=None is proved)", "add_iou", "_compute_ious",
                       "compute_graph_from_seg / compute_graph_from_points_list (compose the above)"]
 
 
